@@ -65,6 +65,17 @@ CHECKS = [
               'every p,q >= 1 (potential function). The abort of the original code is reproduced as a Lean negation '
               'witness and on the real code, and repaired by a fix: commit.',
          note='termination for non-uniform root sizes (e.g. unsplit L-shape 1,2,2,1,1,1) is explored, not proved'),
+    dict(id='C03', design_ref='DESIGN.md section 6 / C03', category='proof',
+         technique='Lean 4 theorem (orthogonality as linear algebra over generated sign conventions) + ast-slice execution of example.py on a synthetic exact operator',
+         text='Partial. Proved: for any linear element-mean functionals, if the density solves the assembled system '
+              'then the residual has zero mean on every element, PROVIDED the five signs and the row/column convention '
+              'cancel -- and the signs regenerated on every run from example.py, ErrorEstimator.residual and '
+              'bilform_matrix do cancel (decide); element integrals of the Dirichlet data are proved. Tie: the '
+              'assembly statements cut out of example.py are executed on a synthetic causal operator and the REAL '
+              'residual closure must have vanishing element means. On real data the hypotheses hold only to quadrature '
+              'accuracy: the 5e-5 bound is exercised by the search on the shipped problems.',
+         note='quadrature accuracy of the real operators and the complex-erf closed forms of the Smooth problems are not '
+              'covered by theorems; translator patterns trusted'),
 ]
 for p in _PENDING:
     if p not in [c['id'] for c in CHECKS]:
